@@ -46,7 +46,7 @@ struct NoJsonResolver;
 impl Resolver<identity_core::common::StringOrUrl, Vec<u8>> for NoResolver { async fn resolve(&self, input: &identity_core::common::StringOrUrl) -> Result<Vec<u8>, resolver::Error> { Err(resolver::Error::NotFound(input.to_string())) } }
 
 const DOC: &str = r#"{"id":"did:example:issuer","verificationMethod":[{"id":"did:example:issuer#k","controller":"did:example:issuer","type":"JsonWebKey","publicKeyJwk":{"kty":"OKP","crv":"Ed25519","x":"11qYAYKxCrfVS_7TyWQHOg7hcvPapiMlrwIaaPcHURo"}},{"id":"did:example:issuer#p","controller":"did:example:issuer","type":"JsonWebKey","publicKeyJwk":{"kty":"EC","crv":"P-256","x":"MKBCTNIcKUSDii11ySs3526iDZ8AiTo7Tu6KPAqv7D4","y":"4Etl6SRW2YiLUrN5vfvVHuhp7x8PxltmWWlbbM4IFyM"}}],"authentication":["did:example:issuer#k"],"service":[{"id":"did:example:issuer#rev","type":"RevocationBitmap2022","serviceEndpoint":"data:application/octet-stream;base64,eJyzMmAAAwADKABr"}]}"#;
-pub const ENTRIES: usize = 43;
+pub const ENTRIES: usize = 45;
 fn s(bytes: &[u8]) -> String { String::from_utf8_lossy(bytes).to_string() }
 fn sink<T: std::fmt::Debug>(x: T) { let _ = format!("{:?}", x); }
 
@@ -112,6 +112,25 @@ fn run(e: i64, bytes: &[u8], extra: &[i64]) -> Vec<i64> {
             let _ = identity_credential::revocation::status_list_2021::StatusPurpose::from_str(&t); }
     41 => { if let Ok(c) = Credential::<Object>::from_json_slice(bytes) { if let Ok(sl) = StatusList2021Credential::try_from(c) { let _ = sl.purpose(); for i in [0usize, 7, 8, 131071, 131072, usize::MAX] { let _ = sl.entry(i); } let mut m = sl.clone(); let ix = extra.first().copied().unwrap_or(0) as usize;
             let _ = m.update(|l| { let _ = l.set_entry(ix, true); let _ = l.set_entry(usize::MAX, false); let _ = l.set_entry(1, true); Ok(()) }); let _ = sl.to_json(); let _ = Credential::from(sl).to_json(); } } }
+    // 43: the input is a raw (uncompressed) roaring serialisation; it is wrapped the way a RevocationBitmap2022 service carries it (zlib, base64url, data URL)
+    //     and handed to every reader of such a service: the TryFrom, the document's resolver and batch updates, the validator's status check
+    43 => { use std::io::Write; use identity_credential::revocation::RevocationDocumentExt; let mut z = flate2::write::ZlibEncoder::new(Vec::new(), flate2::Compression::default()); let _ = z.write_all(bytes); let comp = z.finish().unwrap_or_default();
+            let ep = format!("data:application/octet-stream;base64,{}", identity_jose::jwu::encode_b64(&comp));
+            let sv = json!({"id": "did:example:issuer#rev", "type": "RevocationBitmap2022", "serviceEndpoint": ep});
+            if let Ok(sv) = Service::from_json_value(sv.clone()) { if let Ok(b) = RevocationBitmap::try_from(&sv) { sink((b.is_revoked(0), b.is_revoked(3), b.is_revoked(5), b.is_revoked(65536 + 7), b.is_revoked(u32::MAX), b.len(), b.is_empty()));
+                let mut b2 = b.clone(); let _ = b2.revoke(3); let _ = b2.unrevoke(5); let _ = b2.revoke(70000); sink(b2.len()); let _ = b2.to_service(sv.id().clone()).map(|s2| RevocationBitmap::try_from(&s2).map(|b3| b3 == b2)); let _ = b.to_service(sv.id().clone()); } }
+            let mut dj: Value = serde_json::from_str(DOC).unwrap(); dj["service"] = json!([sv]);
+            if let Ok(mut d) = CoreDocument::from_json_value(dj) { let _ = d.resolve_revocation_bitmap("#rev".into()).map(|b| (b.len(), b.is_revoked(5)));
+              let _ = d.revoke_credentials("#rev", &[1, 5, 70000]); let _ = d.unrevoke_credentials("#rev", &[3, 5]); let _ = d.to_json();
+              if let Ok(c) = Credential::<Object>::from_json_value(json!({"@context": "https://www.w3.org/2018/credentials/v1", "type": ["VerifiableCredential"], "issuer": "did:example:issuer", "issuanceDate": "2020-01-01T00:00:00Z", "credentialSubject": {"id": "did:example:s"},
+                  "credentialStatus": {"id": "did:example:issuer?index=5#rev", "type": "RevocationBitmap2022", "revocationBitmapIndex": "5"}})) {
+                for sc in [identity_credential::validator::StatusCheck::Strict, identity_credential::validator::StatusCheck::SkipUnsupported] { let _ = identity_credential::validator::JwtCredentialValidatorUtils::check_status(&c, &[&d], sc); } } } }
+    // 44: a did:jwk value accepted by ANY route (parse, FromStr, TryFrom<CoreDID>, serde bare or nested) then handed to the accessors that assume a validated value
+    44 => { use std::str::FromStr; let mut got: Vec<DIDJwk> = vec![]; if let Ok(d) = DIDJwk::parse(&t) { got.push(d); } if let Ok(d) = DIDJwk::from_str(&t) { got.push(d); } if let Ok(d) = DIDJwk::try_from(t.as_str()) { got.push(d); }
+            if let Ok(c) = CoreDID::parse(&t) { if let Ok(d) = DIDJwk::try_from(c) { got.push(d); } }
+            if let Ok(d) = serde_json::from_value::<DIDJwk>(json!(t)) { got.push(d); } if let Ok(v) = serde_json::from_value::<Vec<DIDJwk>>(json!([t])) { got.extend(v); }
+            if let Ok(m) = serde_json::from_value::<std::collections::BTreeMap<String, DIDJwk>>(json!({"k": t})) { got.extend(m.into_values()); } if let Ok(d) = serde_json::from_slice::<DIDJwk>(bytes) { got.push(d); }
+            for d in got { let j = d.jwk(); sink((j.kty(), j.is_public(), d.to_string())); let _ = VerificationMethod::try_from(d.clone()).map(|m| m.id().to_string()); let _ = CoreDocument::expand_did_jwk(d.clone()).map(|x| x.methods(None).len()); let _ = serde_json::to_value(&d); } }
     _ => { let _ = serde_json::from_slice::<Value>(bytes); }
   }
   vec![0]
@@ -286,5 +305,53 @@ pub fn gen(rng: &mut Rng, thorough: bool, sink: &mut Sink) {
   // framing of packed state metadata
   for pos in 0..7usize { for val in [0u8, 1, 2, 0x44, 0x7f, 0x80, 0xff] { let mut b = packed.clone(); b[pos] = val; emit(15, &b, &[], "state-metadata-header", sink); } }
   for cut in 0..12usize { emit(15, &packed[..cut.min(packed.len())], &[], "state-metadata-truncated", sink); }
+  // hand-built roaring serialisations (entry 43): well-formed ones and every way a container can contradict its header
+  for b in roaring_payloads() { emit(43, &b, &[], "roaring-containers", sink); for _ in 0..(if thorough { 12 } else { 2 }) { let m = mutate(rng, &b[..b.len().min(64)], alpha); let mut mm = m; if b.len() > 64 { mm.extend_from_slice(&b[64..]); } emit(43, &mm, &[], "roaring-mutation", sink); } }
+  for n in 0..24usize { let b = roaring_payloads()[0].clone(); emit(43, &b[..n.min(b.len())], &[], "roaring-truncated", sink); }
+  // did:jwk through every acceptance route (entry 44)
+  let okjwk = identity_jose::jwu::encode_b64(br#"{"kty":"OKP","crv":"Ed25519","x":"11qYAYKxCrfVS_7TyWQHOg7hcvPapiMlrwIaaPcHURo"}"#);
+  let mut jw: Vec<String> = vec![format!("did:jwk:{okjwk}"), "did:jwk:abc".into(), "did:jwk:e30".into(), "did:jwk:".into(), "did:jwk".into(), "did:example:123".into(), "did:jwk:e30:x".into(), format!("did:jwk:{okjwk}#0"), format!("did:JWK:{okjwk}"), format!("did:jwk:{}", identity_jose::jwu::encode_b64(br#"{"kty":"EC","crv":"Ed25519","x":"AA"}"#)),
+    format!("did:jwk:{}", identity_jose::jwu::encode_b64(br#"{"kty":"OKP","crv":"Ed25519","x":"AA","d":"AA"}"#)), format!("did:jwk:{}", identity_jose::jwu::encode_b64(b"[1]")), format!("did:jwk:{}", identity_jose::jwu::encode_b64(b"\xff\xfe")), format!("did:jwk:{okjwk}="), format!("did:web:{okjwk}")];
+  for sq in seqs.iter().filter(|q| q.len() < 12).take(400) { jw.push(format!("did:{sq}")); jw.push(format!("did:jwk:{sq}")); }
+  for t in &jw { emit(44, t.as_bytes(), &[], "did-jwk-routes", sink); emit(44, serde_json::to_vec(&json!(t)).unwrap().as_slice(), &[], "did-jwk-routes", sink); for _ in 0..(if thorough { 6 } else { 1 }) { emit(44, &mutate(rng, t.as_bytes(), alpha), &[], "did-jwk-mutation", sink); } }
   let _ = ENTRIES;
+}
+/// roaring "standard" serialisations built by hand. A container is (key, declared cardinality, payload); arrays hold u16 values, bitmaps 1024 u64 words.
+fn roaring_payloads() -> Vec<Vec<u8>> {
+  #[derive(Clone)] enum P { Arr(Vec<u16>), Bits(Vec<(usize, u64)>), Runs(Vec<(u16, u16)>) }
+  let ser = |cookie_runs: bool, conts: &[(u16, u32, P)], size_claim: Option<u32>, offsets: bool| -> Vec<u8> {
+    let mut o = vec![]; let n = conts.len() as u32;
+    if cookie_runs { o.extend(((12347u32) | ((n.wrapping_sub(1)) << 16)).to_le_bytes()); let mut bm = vec![0u8; (conts.len() + 7) / 8]; for (i, c) in conts.iter().enumerate() { if matches!(c.2, P::Runs(_)) { bm[i / 8] |= 1 << (i % 8); } } o.extend(bm); }
+    else { o.extend(12346u32.to_le_bytes()); o.extend(size_claim.unwrap_or(n).to_le_bytes()); }
+    for (k, card, _) in conts { o.extend(k.to_le_bytes()); o.extend((card.wrapping_sub(1) as u16).to_le_bytes()); }
+    if offsets && (!cookie_runs || conts.len() >= 4) { let mut off = o.len() as u32 + 4 * n; for (_, _, p) in conts { o.extend(off.to_le_bytes()); off += match p { P::Arr(a) => 2 * a.len() as u32, P::Bits(_) => 8192, P::Runs(r) => 2 + 4 * r.len() as u32 }; } }
+    for (_, _, p) in conts { match p { P::Arr(a) => for x in a { o.extend(x.to_le_bytes()); }, P::Bits(ws) => { let mut w = vec![0u64; 1024]; for (i, x) in ws { w[*i] = *x; } for x in w { o.extend(x.to_le_bytes()); } }, P::Runs(r) => { o.extend((r.len() as u16).to_le_bytes()); for (a, l) in r { o.extend(a.to_le_bytes()); o.extend(l.to_le_bytes()); } } } }
+    o };
+  let full: Vec<(usize, u64)> = (0..65).map(|i| (i, u64::MAX)).collect();   // 4160 bits
+  vec![
+    ser(false, &[(0, 3, P::Arr(vec![3, 5, 9]))], None, true),                                  // well formed
+    ser(false, &[(0, 2, P::Arr(vec![5, 3]))], None, true),                                     // array out of order
+    ser(false, &[(0, 3, P::Arr(vec![3, 3, 9]))], None, true),                                  // duplicate value
+    ser(false, &[(0, 3, P::Arr(vec![3, 5]))], None, true),                                     // fewer values than declared
+    ser(false, &[(0, 2, P::Arr(vec![3, 5, 9]))], None, true),                                  // more values than declared
+    ser(false, &[(1, 1, P::Arr(vec![7])), (0, 1, P::Arr(vec![5]))], None, true),               // keys out of order
+    ser(false, &[(0, 1, P::Arr(vec![7])), (0, 1, P::Arr(vec![5]))], None, true),               // duplicate key
+    ser(false, &[(0, 1, P::Arr(vec![5])), (1, 1, P::Arr(vec![7]))], None, true),               // two containers, fine
+    ser(false, &[(0, 4160, P::Bits(full.clone()))], None, true),                               // bitmap container, fine
+    ser(false, &[(0, 4097, P::Bits(full.clone()))], None, true),                               // bitmap: declared count differs from the bits set
+    ser(false, &[(0, 4097, P::Bits(vec![(0, 0b101000)]))], None, true),                        // bitmap: 2 bits set, 4097 declared
+    ser(false, &[(0, 65536, P::Bits((0..1024).map(|i| (i, u64::MAX)).collect()))], None, true),// full container
+    ser(false, &[(0, 5000, P::Arr(vec![3, 5, 9]))], None, true),                               // array data where a bitmap is declared
+    ser(false, &[(0, 3, P::Arr(vec![3, 5, 9]))], Some(2), true),                               // size claims more containers
+    ser(false, &[(0, 3, P::Arr(vec![3, 5, 9]))], Some(0), true),                               // size claims none
+    ser(false, &[(0, 3, P::Arr(vec![3, 5, 9]))], Some(u32::MAX), true),                        // absurd size
+    ser(false, &[(0, 3, P::Arr(vec![3, 5, 9]))], None, false),                                 // offset header missing
+    ser(false, &[], None, true),                                                               // empty bitmap
+    ser(true, &[(0, 3, P::Runs(vec![(3, 2)]))], None, true),                                   // run container, fine
+    ser(true, &[(0, 3, P::Runs(vec![(9, 1), (3, 2)]))], None, true),                           // runs out of order
+    ser(true, &[(0, 9, P::Runs(vec![(3, 5), (5, 3)]))], None, true),                           // overlapping runs
+    ser(true, &[(0, 3, P::Runs(vec![(65535, 7)]))], None, true),                               // run past the end of the container
+    ser(true, &[(0, 3, P::Runs(vec![]))], None, true),                                         // no runs at all
+    ser(true, &[(0, 2, P::Arr(vec![5, 3])), (1, 3, P::Runs(vec![(3, 2)]))], None, true),       // mixed, array out of order
+  ]
 }
